@@ -36,6 +36,16 @@ def gen_case(rng):
     c = c02.gen_run(rng)
     c["variant"] = "multi"
     c["options"] = {}
+    if rng.random() < 0.4:
+        # several members and a point (non-path) target goal: the goal function depends on the member
+        c["E"] = 2
+        c["p"] = [0, "1/2"]
+        tg = [g for g in c["goals"] if g.get("tmin") is not None or g.get("tmax") is not None]
+        if tg:
+            tg[0]["path"] = False
+            for k in ("tmin", "tmax"):
+                if isinstance(tg[0].get(k), list):
+                    tg[0][k] = float(Fraction(next(v for v in tg[0][k] if v != "nan")))
     used = {}
     for i, g in enumerate(c["goals"]):
         g["order"] = rng.choice([1, 2])
